@@ -23,6 +23,10 @@ P = {
   "Sound (for the modelled sinks) interprocedural taint analysis by abstract interpretation over go/ssa, in both amd64 build configurations (arm64 added in thorough): every fiat limb routine, helper and reduceSaturated with every word secret; every non-Vartime method of field.Element and Scalar with every operand secret; every non-Vartime Point method, the window-table methods, table construction and the pure-Go lookups with every coordinate / control word / index secret; ScalarMult, ScalarBaseMult, MultiScalarMult with secret scalars through the real ladders and lookups; the protocol layer (key import, key generation, ECDH, ECDSA sign incl. nonce generation and self-check, Schnorr key derivation and signing) with secret = key bytes, private scalars, entropy bytes and everything derived. Sinks: branch conditions, indices / slice bounds / allocation sizes, division / modulo / variable shifts, calls of *Vartime* routines, calls of library functions outside the constant-time table, calls without specification. ~270 runs; every finding (56 on this tree) must match the declassification table of 8 (function, kind of secret-dependent atom, reason) entries. Assembly lookups: idx reaches neither an address nor a jump, constant loop bound, no CALL (abstract interpretation of the .s file). Naming contract: inside the curve packages only *Vartime* functions call *Vartime* functions. Positive controls: the three Vartime twins run on secret scalars must be flagged.",
   "Trusted: the Go compiler keeps branch-free SSA branch-free; 64-bit ALU / SSE2 timing is data independent; the constant-time library table; the lower-layer specifications used at the upper layers (each lower layer is analysed in its own runs). Micro-architectural leakage is out of scope.",
   "interprocedural taint analysis (abstract interpretation over go/ssa with taint-carrying terms) + abstract interpretation of Go assembly + call-graph naming rule"),
+ "C18": ("other",
+  "Per-call invariants decided statically (inductive over call sequences; no sequence is enumerated): (1a) every store to Point.isValid writes the constant true inside one of the seven validated constructors or a value computed only from operands' flags; (1b) every exported function of the curve package, abstractly interpreted with one Point operand's flag cleared (each operand in turn, incl. each entry of a point list), has no returning path - it panics; the assertion helper returns exactly when all flags are set; (2) limbs of Element / Scalar are written only by fiat outputs and the proven-in-range unchecked setter; (3) for every function of the public packages returning (object, error): object nil exactly when the error is non-nil on every returning path, and under every rejecting valuation every leaf of the receiver keeps its initial value; (4) receivers may alias operands in every exported Point operation (16 patterns) and in the multi-/double-scalar routines; (5) key objects are created only in their constructors, store fresh copies (allocation-site origin), and every exported method of the four key types stores into no memory reachable from receiver or arguments and returns only fresh memory or immutable key objects; (6) the seven object types are not comparable with ==.",
+  "Trusted: C06 / C15 (the validated constructors accept only curve points), C01-10 / C02 (aliasing inside Element / Scalar methods), the lower-layer specifications; go/ssa; the checker.",
+  "abstract interpretation over go/ssa (typestate of the validity flag, allocation-site freshness, store events) + SSA who-writes scans + go/types comparability"),
  "C19": ("translation_validation",
   "The SSE2 lookup routines are validated against their portable twins for every index 0..15 and every table content: the assembly is parsed and abstractly interpreted (loop unrolled by constant propagation, XMM lanes symbolic), each stored lane must be the table limb / identity constant the Go reference (abstractly interpreted on a fully symbolic table) stores, under the gc/amd64 layout from go/types; store footprint inside the coordinate bytes; idx never reaches an address or branch; the build-constraint surface of the module is exactly the stub/assembly/reference triple with identical declaration sets in every configuration; all call sites pass 4-bit windows.",
   "Trusted: Go assembler semantics of the mnemonics used (tabled in internal/asmx), go/types.SizesFor(gc, amd64), go/ssa, the checker. Not decided: agreement of the avo generator (separate module internal/asm) with the checked-in .s file.",
@@ -81,7 +85,7 @@ P = {
   "abstract interpretation over go/ssa against lower-layer specifications; accept-set formulas compared as propositional normal forms"),
 }
 
-CLAIMED = ["C01", "C02", "C03", "C04", "C05", "C06", "C07", "C08", "C09", "C10", "C11", "C12", "C13", "C14", "C15", "C16", "C17", "C19"]
+CLAIMED = ["C01", "C02", "C03", "C04", "C05", "C06", "C07", "C08", "C09", "C10", "C11", "C12", "C13", "C14", "C15", "C16", "C17", "C18", "C19"]
 
 REASON_PENDING = "check under construction in this session (see DESIGN.md section 2); not yet claimed"
 
